@@ -506,8 +506,12 @@ class ImmutableVersion(dns.zone.Version):
             is_delegation = False
         c = cast(dns.btree.BTreeDict, self.nodes).cursor()
         c.seek(target, False)
-        left = c.prev()
-        assert left is not None
+        while True:
+            left = c.prev()
+            assert left is not None
+            if not left.value().is_glue():
+                # glue is occluded, so it is never a bound
+                break
         c.next()  # skip over left
         while True:
             right = c.next()
